@@ -180,7 +180,7 @@ class C08(Check):
             'time step incl. set-then-revert and changes spread over rounds of one step); 1-4 waiters start at generated '
             'points and may wait twice. non-trivial = an awaited expression has a connective and one of its atoms changes '
             'after a waiter started; distinct by sha1.')
-    budgets = {'quick': dict(examples=2400, procs=4), 'thorough': dict(examples=40000, procs=16)}
+    budgets = {'quick': dict(examples=2400, procs=4), 'thorough': dict(examples=200000, procs=16)}
     level_text = ('Independent evaluator over the harness-owned copy of all atom values: (1) at every resume the condition is '
                   'true at that moment and at least one other activation happened since the await began; (2) at the end of '
                   'every time step (and at every date of a time atom, and at quiescence) no waiter is left waiting on a true '
